@@ -23,9 +23,11 @@ var pnftURLs = []string{
 // also contains separators, NUL bytes, invalid UTF-8 and very long ids.
 func (g *G) idPool(adversarial bool) []string {
 	// " a" / "a\t": equal to "a" after trimming white space, distinct as identifiers
-	ids := []string{"a", "ab", "abc", "b", "A", "a/", "a b", "a-1", " a", "a\t"}
+	// "a/b" + "a" and "a" + "b/a" read the same when joined with "/"
+	ids := []string{"a", "ab", "abc", "b", "A", "a/", "a b", "a-1", " a", "a\t", "a/b", "b/a"}
 	if adversarial {
-		ids = append(ids, strings.Repeat("z", 300), "a/b", "/", "é")
+		// "%61" and "a%2Fb" are the percent-encoded spellings of "a" and "a/b": different ids
+		ids = append(ids, strings.Repeat("z", 300), "/", "é", "%61", "a%2Fb")
 		if !g.W.Opt.Open["C08-invalid-utf8-export"] {
 			ids = append(ids, "a\xffb")
 		} else {
@@ -111,8 +113,10 @@ func (g *G) genPnftMsg() (sdk.Msg, string) {
 		} else if d != nil && g.chance("by-owner", g.bias("by-owner", 65)) {
 			ownerAct(d.OwnerAddr)
 		}
-		return &pnfttypes.MsgUpdateDenomRequest{Id: denom, Name: pick(g, "name", []string{"", "n2"}), Symbol: pick(g, "sym", []string{"", "S2"}),
-			Description: pick(g, "desc", []string{"", "d2"}), Data: pick(g, "data", []string{"", "x"}), Updater: g.addrString("updater-spelling", actor)}, "update-denom"
+		// values with surrounding white space are stored as given
+		return &pnfttypes.MsgUpdateDenomRequest{Id: denom, Name: pick(g, "name", []string{"", "n2", "n2 ", " "}), Symbol: pick(g, "sym", []string{"", "S2", " S2", "\t"}),
+			Description: pick(g, "desc", []string{"", "d2", " d2 "}), Uri: pick(g, "uri", []string{"", "", "u2", "u2\n"}), UriHash: pick(g, "urihash", []string{"", "", "h2 "}),
+			Data: pick(g, "data", []string{"", "x", " x"}), Updater: g.addrString("updater-spelling", actor)}, "update-denom"
 	case "delete":
 		if formerAct(m.FormerDenomOwner[denom]) {
 		} else if d != nil && g.chance("by-owner", g.bias("by-owner", 65)) {
@@ -136,7 +140,16 @@ func (g *G) genPnftMsg() (sdk.Msg, string) {
 			ownerAct(d.OwnerAddr)
 		}
 		id := pick(g, "token-id", ids)
-		if ex := m.TokensOf(denom); len(ex) > 0 && g.chance("look-alike-id", 18) {
+		var joined []string
+		for _, k := range toks {
+			// an existing token <d1,t1> whose "d1/t1" also reads as "<this denom>/<something>"
+			if full := k.Denom + "/" + k.ID; k.Denom != denom && strings.HasPrefix(full, denom+"/") && len(full) > len(denom)+1 {
+				joined = append(joined, full[len(denom)+1:])
+			}
+		}
+		if len(joined) > 0 && g.chance("join-collision", 40) {
+			id = pick(g, "joined-id", joined)
+		} else if ex := m.TokensOf(denom); len(ex) > 0 && g.chance("look-alike-id", 18) {
 			// an id that differs from an existing one of this denom by surrounding white space only
 			base := strings.TrimSpace(ex[g.intn("look-alike-of", len(ex))].ID)
 			if base != "" {
